@@ -277,8 +277,8 @@ fn interleaved<FA: Family, FB: Family>(a: &[u8], b: &[u8], ctx: &mut Ctx) -> Cas
     let mut parked = 0u64;
     for k in cuts {
         for poll_front_end in [false, true] {
-            let steps = [Step::Chunk(k), Step::Pending];
-            let mut rd = crate::sio::ScriptedReader::new(a, &steps);
+            let mut rd = crate::sio::ScriptedReader::new(a, &[]);
+            rd.pend_once_at = Some(k);
             let mut state: mqtt_proto::GenericPollPacketState<FA::Header> = Default::default();
             // (two futures of different types; the one not used is never created)
             let mut fut_async = None;
